@@ -305,6 +305,16 @@ def run(tier):
     os.makedirs(chk.work, exist_ok=True)
     try:
         return _run(chk, tier)
+    except core.ToolError as e:
+        if not chk.violations:
+            raise
+        # the machinery failed AFTER real-code runs had already been rejected (typically a hang or
+        # crash provoked by the same defect): report those violations instead of hiding them
+        chk.extra["tool_error_after_violations"] = str(e)[:800]
+        chk.evaluations = max(chk.evaluations, len(chk.violations))
+        chk.nontrivial = max(chk.nontrivial, 2)
+        chk.rule = chk.rule or "run aborted by a tool error after violations had been recorded"
+        return chk.finish()
     finally:
         shutil.rmtree(chk.work, ignore_errors=True)
 
